@@ -298,6 +298,20 @@ static void op_samesec_h(Exec& x, const Json& op, int)
 		std::string dn;
 		for (auto& d : x.sb.cfg.disks) if (d.top == top) dn = d.name;
 		for (int guard = 0; guard < 64 && !dn.empty() && x.sb.versions.get(dn, sub, sz, s, nns); ++guard) nns = (nns + 13) % 1000000000;
+		// nor the stamp of another file with the same name and size anywhere in the array: with other bytes that would be a
+		// decoy for the copy detection (family decoy's business)
+		std::string base = sub.substr(sub.rfind('/') == std::string::npos ? 0 : sub.rfind('/') + 1);
+		Snap all = x.sb.snapshot(x.sb.data_tops());
+		for (int guard = 0; guard < 64; ++guard) {
+			bool clash = false;
+			for (auto& kv : all) {
+				if (kv.second.type != 'f' || kv.first == rel || kv.second.data.size() != sz || kv.second.mtime_s != s || kv.second.mtime_ns != nns) continue;
+				std::string b2 = kv.first.substr(kv.first.rfind('/') + 1);
+				if (b2 == base) clash = true;
+			}
+			if (!clash) break;
+			nns = (nns + 17) % 1000000000;
+		}
 	}
 	if (op.num("rewrite") && !b.empty()) {
 		Bytes nb = gen_bytes((uint64_t)op.num("seed"), b.size());
